@@ -10,10 +10,18 @@ package standard
 // signers, submitters, head root and contribution providers.
 //
 // A scenario is a TLC-simulated behaviour of Scen_Bounded.tla (one step per spec action: Start, Tick,
-// Head with or without duty refresh, Prepare, AttStart/AttEnd, SyncMsg, SyncAgg, Advance) of 64 and
-// more epochs.  After every step, at quiescence, the driver logs the domains of the bookkeeping maps
-// (package-internal projections / the VerifC20* seams), the pending-attestation marks, HasPendingAttestations
-// for all recent slots and the job table of the recording scheduler.
+// Head with or without duty refresh, Resched, Prepare, AttStart, AttEnd, Probe, SyncMsg, SyncAgg, Advance) of 64
+// and more epochs (long runs) or of 11 epochs with a refresh of the current epoch only while one of its
+// attestation jobs is running (in-flight batch).  After every step, at quiescence, the driver logs the domains
+// of the bookkeeping maps (package-internal projections / the VerifC20* seams), the pending-attestation marks,
+// HasPendingAttestations for all recent slots, the job table of the recording scheduler and the set of
+// attestation jobs that are running.
+//
+// Attestation jobs have duration: AttStart fires the job on its own goroutine and leaves it at the node's
+// gate (the real attester is inside AttestationData: the job has left the table, its body runs); every
+// later step - head events delivered through the real HandleHeadEvent, with a refresh of the running job's
+// epoch (CancelJob fails for it), with the node's reply to the refresh's duty request kept back (Head split,
+// Resched), the next slot's job, the clock, probes - happens with the job in flight, until AttEnd opens the gate.
 //
 // TestVerifC20Real is the second, shorter run: the same services on the REAL scheduler
 // (scheduler/advanced) with a wall-clock chain time of short slots; it samples the job table and the
@@ -64,6 +72,7 @@ type c20Step struct {
 	Ev     string     `json:"ev"`
 	P      uint64     `json:"p"`
 	EP     uint64     `json:"ep"`
+	G      uint64     `json:"g"` // Env_OutageBounded of the scenario's specification
 	Verify bool       `json:"verify"`
 	Agg    string     `json:"agg"` // never | third | always
 	Now    uint64     `json:"now"`
@@ -75,6 +84,7 @@ type c20Step struct {
 	Dm     [][]uint64 `json:"dm"`
 	S      uint64     `json:"s"`
 	Ok     bool       `json:"ok"`
+	Split  bool       `json:"split"` // Head: the node answers the refresh's duty request late (Resched)
 }
 
 type c20Scenario struct {
@@ -108,15 +118,31 @@ func (s *c20Spec) Spec(_ context.Context, _ *api.SpecOpts) (*api.Response[map[st
 	}, nil
 }
 
+// c20Gate holds the attestation data request of one slot: the attestation is in flight while it waits.
+type c20Gate struct {
+	arrived chan struct{} // closed when the request is with the node
+	release chan struct{} // closed by the driver: the node answers
+	ok      bool          // the answer
+	taken   bool
+}
+
 // c20Node is the beacon node as the real attester, messenger and aggregator see it.
 type c20Node struct {
 	mu      sync.Mutex
 	p       uint64
-	attOK   bool          // outcome of attestation data requests
-	rootOK  bool          // outcome of head root requests
-	gate    chan struct{} // when armed: AttestationData waits here
-	arrived chan struct{}
+	attOK   bool                // outcome of attestation data requests that no gate waits for
+	rootOK  bool                // outcome of head root requests
+	gates   map[uint64]*c20Gate // slot -> armed gate: AttestationData for the slot waits there
+	outcome map[uint64]bool     // slot -> outcome (real run), default attOK
 	calls   int
+	// slots for which attestations were submitted (the attestation run succeeded)
+	submitted map[uint64]bool
+}
+
+func (n *c20Node) didSubmit(slot uint64) bool {
+	n.mu.Lock()
+	defer n.mu.Unlock()
+	return n.submitted[slot]
 }
 
 func (n *c20Node) set(attOK, rootOK bool) {
@@ -125,29 +151,62 @@ func (n *c20Node) set(attOK, rootOK bool) {
 	n.mu.Unlock()
 }
 
-func (n *c20Node) arm() (arrived chan struct{}, gate chan struct{}) {
+func (n *c20Node) setOutcome(slot uint64, ok bool) {
 	n.mu.Lock()
-	defer n.mu.Unlock()
-	n.gate = make(chan struct{})
-	n.arrived = make(chan struct{})
-	return n.arrived, n.gate
+	if n.outcome == nil {
+		n.outcome = map[uint64]bool{}
+	}
+	n.outcome[slot] = ok
+	for s := range n.outcome {
+		if s+64 < slot {
+			delete(n.outcome, s)
+		}
+	}
+	n.mu.Unlock()
 }
 
-func (n *c20Node) disarm() {
+// arm makes the next attestation data request for slot wait until the gate is released.
+func (n *c20Node) arm(slot uint64, ok bool) *c20Gate {
 	n.mu.Lock()
-	n.gate, n.arrived = nil, nil
-	n.mu.Unlock()
+	defer n.mu.Unlock()
+	if n.gates == nil {
+		n.gates = map[uint64]*c20Gate{}
+	}
+	g := &c20Gate{arrived: make(chan struct{}), release: make(chan struct{}), ok: ok}
+	n.gates[slot] = g
+	return g
+}
+
+// disarm removes a gate nobody has arrived at; false if the request is waiting there already.
+func (n *c20Node) disarm(slot uint64, g *c20Gate) bool {
+	n.mu.Lock()
+	defer n.mu.Unlock()
+	if g.taken {
+		return false
+	}
+	if n.gates[slot] == g {
+		delete(n.gates, slot)
+	}
+	return true
 }
 
 func (n *c20Node) AttestationData(_ context.Context, opts *api.AttestationDataOpts) (*api.Response[*phase0.AttestationData], error) {
 	n.mu.Lock()
 	n.calls++
-	gate, arrived, ok := n.gate, n.arrived, n.attOK
-	n.gate, n.arrived = nil, nil
+	ok := n.attOK
+	if o, set := n.outcome[uint64(opts.Slot)]; set {
+		ok = o
+	}
+	g := n.gates[uint64(opts.Slot)]
+	if g != nil {
+		delete(n.gates, uint64(opts.Slot))
+		g.taken = true
+		ok = g.ok
+	}
 	n.mu.Unlock()
-	if gate != nil {
-		close(arrived)
-		<-gate
+	if g != nil {
+		close(g.arrived)
+		<-g.release
 	}
 	if !ok {
 		return nil, errors.New("c20: beacon node does not answer")
@@ -198,7 +257,20 @@ func (n *c20Node) SyncCommitteeContribution(_ context.Context, opts *api.SyncCom
 	return &api.Response[*altair.SyncCommitteeContribution]{Data: c, Metadata: map[string]any{}}, nil
 }
 
-func (*c20Node) SubmitAttestations(_ context.Context, _ []*phase0.Attestation) error { return nil }
+func (n *c20Node) SubmitAttestations(_ context.Context, atts []*phase0.Attestation) error {
+	n.mu.Lock()
+	if n.submitted == nil {
+		n.submitted = map[uint64]bool{}
+	}
+	for _, a := range atts {
+		if a != nil && a.Data != nil {
+			n.submitted[uint64(a.Data.Slot)] = true
+			delete(n.submitted, uint64(a.Data.Slot)-256)
+		}
+	}
+	n.mu.Unlock()
+	return nil
+}
 
 func (*c20Node) SubmitSyncCommitteeMessages(_ context.Context, _ []*altair.SyncCommitteeMessage) error {
 	return nil
@@ -291,12 +363,50 @@ type c20World struct {
 	agg     *standardsynccommitteeaggregator.Service
 	decided map[[2]uint64]bool // (epoch, version) for which the node's attester duties are fixed
 	syncSet map[[2]uint64]bool
+	flights map[uint64]*c20Flight // attestation jobs that are running (held at the node's gate), by slot
+	// Env_OutageBounded as it really happened: epochs in which an attestation job ran / one succeeded
+	g         uint64
+	ran, succ map[uint64]bool
+}
+
+// mayFail: would a failing attestation data request for slot s keep within Env_OutageBounded?  The
+// scenario's failures respect it on the design's job table; the code's table can differ (a refresh the code
+// did not make, validators that have attested in the epoch already): the harness must not break the
+// assumption itself, so it lets the node answer when G epochs with attestations but without success precede.
+func (w *c20World) mayFail(s uint64) bool {
+	e := s / w.p
+	if w.succ[e] {
+		return true
+	}
+	gap := uint64(0)
+	for k := e; k > 0 && gap < w.g; {
+		k--
+		if w.succ[k] {
+			break
+		}
+		if w.ran[k] {
+			gap++
+		}
+	}
+	return gap < w.g
+}
+
+// c20Flight is an attestation job in flight.
+type c20Flight struct {
+	gate     *c20Gate
+	done     chan bool
+	ok       bool
+	scripted bool
 }
 
 func c20Build(t *testing.T, sc *c20Scenario, st c20Step, ct chaintime.Service, slotDur time.Duration) *c20World {
 	t.Helper()
 	ctx := context.Background()
-	w := &c20World{t: t, sc: sc, p: st.P, ep: st.EP, verify: st.Verify, decided: map[[2]uint64]bool{}, syncSet: map[[2]uint64]bool{}}
+	w := &c20World{t: t, sc: sc, p: st.P, ep: st.EP, verify: st.Verify, decided: map[[2]uint64]bool{}, syncSet: map[[2]uint64]bool{},
+		flights: map[uint64]*c20Flight{}, g: st.G, ran: map[uint64]bool{}, succ: map[uint64]bool{}}
+	if w.g == 0 {
+		w.g = 2
+	}
 	cfg := c03Config{P: st.P, D: 12, EP: st.EP, Prep: 1, Fork: 0, FT: false, AttDelay: 4, PropDelay: 0, SyncDelay: 4, Vals: []uint64{1, 2, 3}}
 	w.h = c03NewHarness(cfg, c03Oracle{})
 	if ct == nil {
@@ -497,6 +607,11 @@ func (w *c20World) project(ev verifsupport.Ev, jobNames []string, now uint64) ve
 	ev["records"] = c20Cap(records)
 	ev["nrecords"] = len(records)
 	ev["fetched"] = c20Sorted(fetched)
+	running := map[uint64]bool{}
+	for s := range w.flights {
+		running[s] = true
+	}
+	ev["running"] = c20Sorted(running)
 	return ev
 }
 
@@ -544,37 +659,102 @@ func (w *c20World) fireSilent() {
 	w.t.Fatalf("c20: scenario %d: due jobs do not run dry", w.sc.Sc)
 }
 
-// attest fires the attestation job of slot s: AttStart when its body has reached the node (the job has
-// left the table), AttEnd when the body has returned.
-func (w *c20World) attest(tr *verifsupport.Trace, s uint64, ok bool, scripted bool) {
-	w.node.set(ok, true)
-	arrived, gate := w.node.arm()
+// attStart fires the attestation job of slot s on its own goroutine.  AttStart is logged when its body
+// has reached the node (the job has left the table, the real attester waits for the attestation data):
+// the job stays in flight until attEnd.  A job that returns without asking the node (no such job, every
+// validator has attested in the epoch already) is logged as a whole (AttEnd, gated = false).
+func (w *c20World) attStart(tr *verifsupport.Trace, s uint64, ok bool, scripted bool) bool {
+	if w.flights[s] != nil {
+		w.t.Fatalf("c20: scenario %d: attestation job for slot %d started twice", w.sc.Sc, s)
+	}
+	if !ok && !w.mayFail(s) {
+		ok = true
+	}
+	g := w.node.arm(s, ok)
 	w.h.begin()
 	done := make(chan bool, 1)
 	go func() { done <- w.h.Sched.Fire(w.h.Ctx, c03JobName("att", s)) }()
 	fired, gated := false, false
 	select {
-	case <-arrived:
+	case <-g.arrived:
 		gated = true
 	case fired = <-done:
+		if !w.node.disarm(s, g) {
+			// cannot be: the job has returned
+			w.t.Fatalf("c20: scenario %d: attestation job for slot %d returned with its request at the node", w.sc.Sc, s)
+		}
 	case <-time.After(30 * time.Second):
 		w.t.Fatalf("c20: scenario %d: attestation job for slot %d neither reached the node nor returned", w.sc.Sc, s)
 	}
 	if gated {
-		w.emit(tr, verifsupport.Ev{"ev": "AttStart", "s": s})
-		close(gate)
-		select {
-		case fired = <-done:
-		case <-time.After(30 * time.Second):
-			w.t.Fatalf("c20: scenario %d: attestation job for slot %d does not return", w.sc.Sc, s)
-		}
-	} else {
-		w.node.disarm()
+		w.flights[s] = &c20Flight{gate: g, done: done, ok: ok, scripted: scripted}
+		w.emit(tr, verifsupport.Ev{"ev": "AttStart", "s": s, "scripted": scripted})
+		return true
 	}
 	w.check(w.h.Quiesce())
-	w.node.set(true, true)
 	w.fireSilent()
-	w.emit(tr, verifsupport.Ev{"ev": "AttEnd", "s": s, "ok": ok, "fired": fired, "gated": gated, "scripted": scripted})
+	if fired {
+		w.ran[s/w.p] = true
+	}
+	w.emit(tr, verifsupport.Ev{"ev": "AttEnd", "s": s, "ok": ok, "fired": fired, "gated": false, "scripted": scripted})
+	return false
+}
+
+// attEnd lets the node answer the attestation data request of slot s: AttEnd when the job's body has returned.
+func (w *c20World) attEnd(tr *verifsupport.Trace, s uint64, scripted bool) {
+	f := w.flights[s]
+	if f == nil {
+		return // the job was logged as a whole
+	}
+	w.h.begin()
+	close(f.gate.release)
+	fired := false
+	select {
+	case fired = <-f.done:
+	case <-time.After(30 * time.Second):
+		w.t.Fatalf("c20: scenario %d: attestation job for slot %d does not return", w.sc.Sc, s)
+	}
+	delete(w.flights, s)
+	w.check(w.h.Quiesce())
+	w.fireSilent()
+	w.ran[s/w.p] = true
+	if w.node.didSubmit(s) {
+		w.succ[s/w.p] = true
+	}
+	w.emit(tr, verifsupport.Ev{"ev": "AttEnd", "s": s, "ok": f.ok, "submitted": w.node.didSubmit(s), "fired": fired, "gated": true, "scripted": scripted && f.scripted})
+}
+
+// attest runs the attestation job of slot s from start to end.
+func (w *c20World) attest(tr *verifsupport.Trace, s uint64, ok bool, scripted bool) {
+	if w.attStart(tr, s, ok, scripted) {
+		w.attEnd(tr, s, scripted)
+	}
+}
+
+// heldAtt lists the epochs whose attester duty reply the node keeps back (oldest first).
+func (w *c20World) heldAtt() []c03Parked {
+	res := []c03Parked{}
+	for _, c := range w.h.Held() {
+		if c.K == "att" {
+			res = append(res, c)
+		}
+	}
+	return res
+}
+
+// resched delivers the node's late reply to the duty request of the refresh of epoch e.
+func (w *c20World) resched(tr *verifsupport.Trace, e uint64, scripted bool) {
+	fired := false
+	for _, c := range w.heldAtt() {
+		if c.Key == e {
+			ok, err := w.h.ReleaseCall(c.K, c.Key, c.Ver, c.Jk)
+			w.check(err)
+			fired = ok
+			break
+		}
+	}
+	w.fireSilent()
+	w.emit(tr, verifsupport.Ev{"ev": "Resched", "e": e, "fired": fired, "scripted": scripted})
 }
 
 func (w *c20World) syncMsg(tr *verifsupport.Trace, s uint64, ok bool, scripted bool) {
@@ -602,6 +782,15 @@ func (w *c20World) prepare(tr *verifsupport.Trace, e uint64, scripted bool) {
 // fired (the scenario is a suggestion made from the design; the table is what the code really did).
 func (w *c20World) finishSlot(tr *verifsupport.Trace) {
 	now := w.h.Now()
+	// the node answers within the slot; a job runs into the next slot at most
+	for _, c := range w.heldAtt() {
+		w.resched(tr, c.Key, false)
+	}
+	for _, s := range c20Sorted(w.flightSet()) {
+		if s < now {
+			w.attEnd(tr, s, false)
+		}
+	}
 	for round := 0; round < 50; round++ {
 		var name string
 		var k string
@@ -636,6 +825,14 @@ func (w *c20World) finishSlot(tr *verifsupport.Trace) {
 		}
 	}
 	w.t.Fatalf("c20: scenario %d: the jobs of slot %d do not run dry", w.sc.Sc, now)
+}
+
+func (w *c20World) flightSet() map[uint64]bool {
+	res := map[uint64]bool{}
+	for s := range w.flights {
+		res[s] = true
+	}
+	return res
 }
 
 func c20RunScenario(t *testing.T, tr *verifsupport.Trace, sc *c20Scenario) {
@@ -678,21 +875,48 @@ func c20RunScenario(t *testing.T, tr *verifsupport.Trace, sc *c20Scenario) {
 				}
 			}
 			w.syncDuties(e)
+			if st.Split {
+				// the node keeps its reply to the refresh's duty request back (Resched delivers it)
+				w.h.Hold("att", true)
+			}
 			w.check(w.h.HeadEvent())
+			w.h.Hold("att", false)
 			w.fireSilent()
 			r := st.R
 			if r == nil {
 				r = []uint64{}
 			}
-			w.emit(tr, verifsupport.Ev{"ev": "Head", "r": r})
+			held := []uint64{}
+			for _, c := range w.heldAtt() {
+				held = append(held, c.Key)
+			}
+			w.emit(tr, verifsupport.Ev{"ev": "Head", "r": r, "split": st.Split, "held": held})
+		case "Resched":
+			w.resched(tr, st.E, true)
 		case "Att":
 			w.attest(tr, st.S, st.Ok, true)
+		case "AttStart":
+			w.attStart(tr, st.S, st.Ok, true)
+		case "AttEnd":
+			w.attEnd(tr, st.S, true)
+		case "Probe":
+			// a shutdown is requested: main.go polls HasPendingAttestations (logged with every line)
+			w.emit(tr, verifsupport.Ev{"ev": "Probe"})
 		case "SyncMsg":
 			w.syncMsg(tr, st.S, st.Ok, true)
 		case "SyncAgg":
 			w.syncAgg(tr, st.S, true)
 		default:
 			t.Fatalf("c20: unknown step %q", st.Ev)
+		}
+	}
+	if w != nil {
+		// nothing stays in flight (the scenario ends with every job finished; a safety net)
+		for _, c := range w.heldAtt() {
+			w.resched(tr, c.Key, false)
+		}
+		for _, s := range c20Sorted(w.flightSet()) {
+			w.attEnd(tr, s, false)
 		}
 	}
 }
@@ -808,6 +1032,12 @@ func (c *c20WallTime) FirstSlotOfEpoch(epoch phase0.Epoch) phase0.Slot {
 
 // c20RunReal replays the environment part of a scenario (duties, reorgs, head events and gaps, node
 // outages) in real time; the jobs are run by the real scheduler.  One Sample line per epoch.
+//
+// In flight: where the scenario refreshes the duties of the current epoch between AttStart(s) and AttEnd(s),
+// the node holds the attestation data request of slot s; the head event is delivered when the request has
+// arrived (the real scheduler has started the job), and when the refresh has asked the node for the duties
+// again (its cancel loop is over) an InFlight line gives HasPendingAttestations(s) and whether the table
+// has a job for s; AttEnd lets the node answer, a second InFlight line follows when the mark is gone.
 func c20RunReal(t *testing.T, tr *verifsupport.Trace, sc *c20Scenario) {
 	ctx, cancel := context.WithCancel(context.Background())
 	defer cancel()
@@ -842,6 +1072,85 @@ func c20RunReal(t *testing.T, tr *verifsupport.Trace, sc *c20Scenario) {
 		if d := time.Until(at); d > 0 {
 			time.Sleep(d)
 		}
+	}
+	held := map[uint64]*c20Gate{} // slot -> gate armed for it
+	attFetches := func(e uint64) int {
+		w.h.mu.Lock()
+		defer w.h.mu.Unlock()
+		n := 0
+		for _, f := range w.h.fetches {
+			if f.K == "att" && f.Key == e {
+				n++
+			}
+		}
+		return n
+	}
+	inFlight := func(s uint64, running bool, extra verifsupport.Ev) {
+		out := verifsupport.Ev{"sc": sc.Sc, "ev": "InFlight", "s": s, "now": uint64(wall.CurrentSlot()), "slotms": sc.SlotMs}
+		for k, x := range extra {
+			out[k] = x
+		}
+		pendprobe, jobsprobe, run := []uint64{}, []uint64{}, []uint64{}
+		if w.h.Svc.HasPendingAttestations(ctx, phase0.Slot(s)) {
+			pendprobe = append(pendprobe, s)
+		}
+		if sched.JobExists(ctx, c03JobName("att", s)) {
+			jobsprobe = append(jobsprobe, s)
+		}
+		if running {
+			run = append(run, s)
+		}
+		out["pendprobe"], out["jobsprobe"], out["running"] = pendprobe, jobsprobe, run
+		tr.Emit(out)
+	}
+	release := func(s uint64) {
+		g := held[s]
+		if g == nil {
+			return
+		}
+		delete(held, s)
+		if w.node.disarm(s, g) {
+			return // the request never came
+		}
+		close(g.release)
+		// the job's body returns: the mark goes (a mark that stays is what the line will show)
+		deadline := time.Now().Add(2 * time.Second)
+		for w.h.Svc.HasPendingAttestations(ctx, phase0.Slot(s)) && time.Now().Before(deadline) {
+			time.Sleep(2 * time.Millisecond)
+		}
+		inFlight(s, false, verifsupport.Ev{"phase": "end"})
+	}
+	deliver := func() {
+		now := uint64(wall.CurrentSlot())
+		e := int64(now / w.p)
+		w.h.mu.Lock()
+		prev := c03Root(e-1, w.h.ver(e-1))
+		cur := c03Root(e, w.h.ver(e))
+		w.h.mu.Unlock()
+		handler(&apiv1.Event{Topic: "head", Data: &apiv1.HeadEvent{
+			Slot: phase0.Slot(now), Block: c03Root(200, int(now)), PreviousDutyDependentRoot: prev, CurrentDutyDependentRoot: cur,
+		}})
+	}
+	// refreshedInFlight: does the scenario refresh the epoch of slot s between this AttStart and its AttEnd,
+	// within the slot?
+	refreshedInFlight := func(from int, s uint64) bool {
+		for _, nx := range sc.Steps[from+1:] {
+			switch nx.Ev {
+			case "AttEnd":
+				if nx.S == s {
+					return false
+				}
+			case "Advance":
+				return false
+			case "Head":
+				for _, r := range nx.R {
+					if r == s/w.p {
+						return true
+					}
+				}
+			}
+		}
+		return false
 	}
 	// The real prepare-for-epoch job runs at the start of the epoch when slots are this short: the
 	// node must know the next epoch's duties by then.
@@ -907,40 +1216,61 @@ func c20RunReal(t *testing.T, tr *verifsupport.Trace, sc *c20Scenario) {
 				}
 			}
 			waitUntil(wall.StartOfSlot(phase0.Slot(slot)).Add(dur / 6))
-			now := uint64(wall.CurrentSlot())
-			e := int64(now / w.p)
-			w.h.mu.Lock()
-			prev := c03Root(e-1, w.h.ver(e-1))
-			cur := c03Root(e, w.h.ver(e))
-			w.h.mu.Unlock()
-			handler(&apiv1.Event{Topic: "head", Data: &apiv1.HeadEvent{
-				Slot: phase0.Slot(now), Block: c03Root(200, int(now)), PreviousDutyDependentRoot: prev, CurrentDutyDependentRoot: cur,
-			}})
+			if g := held[slot]; g != nil {
+				// the attestation of this slot is to be in flight when the head event arrives
+				arrived := false
+				select {
+				case <-g.arrived:
+					arrived = true
+				case <-time.After(time.Until(wall.StartOfSlot(phase0.Slot(slot)).Add(dur * 9 / 10))):
+				}
+				if !arrived && !w.node.disarm(slot, g) {
+					arrived = true
+				}
+				if !arrived {
+					delete(held, slot) // no request (no such job, validators have attested already, load): as before
+					deliver()
+					break
+				}
+				e := slot / w.p
+				before := attFetches(e)
+				deliver()
+				refreshed := false
+				for deadline := time.Now().Add(100 * time.Millisecond); time.Now().Before(deadline); time.Sleep(time.Millisecond) {
+					if attFetches(e) > before {
+						refreshed = true
+						break
+					}
+				}
+				inFlight(slot, true, verifsupport.Ev{"phase": "held", "refreshed": refreshed})
+				break
+			}
+			deliver()
+		case "AttStart":
+			w.node.setOutcome(st.S, st.Ok)
+			if st.S == slot && refreshedInFlight(i, st.S) {
+				held[st.S] = w.node.arm(st.S, st.Ok)
+			}
+		case "AttEnd":
+			release(st.S)
 		case "Att":
-			w.node.mu.Lock()
-			w.node.attOK = st.Ok
-			w.node.mu.Unlock()
+			w.node.setOutcome(st.S, st.Ok)
 		case "SyncMsg":
 			w.node.mu.Lock()
 			w.node.rootOK = st.Ok
 			w.node.mu.Unlock()
-		case "Tick", "SyncAgg":
+		case "Tick", "SyncAgg", "Resched", "Probe":
 		default:
 			t.Fatalf("c20: unknown step %q", st.Ev)
 		}
 	}
+	for s := range held {
+		release(s)
+	}
 	// Let the last jobs finish (the chain goes on: a head event per slot, no reorg), then look once more.
 	for k := uint64(1); k <= 8; k++ {
 		waitUntil(wall.StartOfSlot(phase0.Slot(slot + k)).Add(dur / 6))
-		now := uint64(wall.CurrentSlot())
-		e := int64(now / w.p)
-		w.h.mu.Lock()
-		prev := c03Root(e-1, w.h.ver(e-1))
-		cur := c03Root(e, w.h.ver(e))
-		w.h.mu.Unlock()
-		handler(&apiv1.Event{Topic: "head", Data: &apiv1.HeadEvent{
-			Slot: phase0.Slot(now), Block: c03Root(200, int(now)), PreviousDutyDependentRoot: prev, CurrentDutyDependentRoot: cur,
-		}})
+		deliver()
 	}
 	sample("Sample")
 	cancel()
